@@ -665,13 +665,14 @@ class BaseTaskPool:
                 return_exceptions=return_exceptions,
             )
         self._meta_tasks_cancelled.clear()
-        await gather(
-            *self._tasks_ended.values(),
-            *self._tasks_cancelled.values(),
-            return_exceptions=return_exceptions,
-        )
-        self._tasks_ended.clear()
-        self._tasks_cancelled.clear()
+        finished = {**self._tasks_ended, **self._tasks_cancelled}
+        await gather(*finished.values(), return_exceptions=return_exceptions)
+        # Forget only the tasks that were just awaited. Others may have been
+        # cancelled or may have ended in the meantime and can still be busy
+        # with their callbacks.
+        for task_id in finished:
+            self._tasks_ended.pop(task_id, None)
+            self._tasks_cancelled.pop(task_id, None)
 
     async def gather_and_close(
         self,
